@@ -5,6 +5,8 @@ import "verifsim/simcore"
 func Checks() map[string]*simcore.Check {
 	return map[string]*simcore.Check{
 		"C06": check06(),
+		"C07": check07(),
+		"C11": check11(),
 	}
 }
 
@@ -26,5 +28,47 @@ func check06() *simcore.Check {
 		Gen:       Gen06, Decode: Decode06, Run: Run06, Shrink: Shrink06,
 		ProbeNames: []string{"batch-goroutines-interleaved", "batch-above-threshold", "batch-below-threshold", "batch-16-nibble-fanout",
 			"batch-with-deletions", "batch-collapses-root", "stacktrie-compared", "full-iteration", "flushed-to-disk", "cold-restart", "root-revisited"},
+	}
+}
+
+func check07() *simcore.Check {
+	return &simcore.Check{
+		ID: "C07", Engine: "triesim", Level: "exploration",
+		Rule: "plans = key pool (as C06), an account trie plus 0-2 storage tries (owner != 0, their roots linked into the account trie), 1-6 commit generations; per generation and trie a modification list (random edits, delete everything, delete everything and insert a different set, single-key flips, 101-300 updates for the parallel committer, nothing; sequential or UpdateBatch, Delete or empty-value Update, optional Hash() half way), then Commit -> triedb.Update (hashdb or pathdb on SimKV) [-> flush to disk] [-> cold restart]. Non-trivial = at least two generations (a committed trie is modified and re-committed). Distinct = distinct (roots, contents) logs.",
+		Assumptions: []string{
+			"the parallel committer's goroutines have no seam; perturbed by GOMAXPROCS only",
+			"the path-scheme disk is compared only after a full flush (it lags the layers by design)",
+			"hash scheme: presence of every canonical node is checked, leftovers of older generations are legitimate there",
+		},
+		Components: simcore.Components{
+			Real: []string{"trie.Trie.Commit, committer, opTracer, PrevalueTracer", "trie/trienode NodeSet/MergedNodeSet", "trie.StackTrie with OnTrieNode", "triedb.Database.Update/Commit", "triedb/hashdb", "triedb/pathdb (diff layers, buffer, flush)", "core/rawdb trie-node accessors"},
+			Stub: []string{"disk: simdisk.SimKV"},
+		},
+		Perturbed: []string{"parallel committer goroutines"},
+		Runs:      map[string]int{"quick": 8000, "thorough": 300000},
+		Gen:       Gen07f, Decode: Decode07, Run: Run07, Shrink: Shrink07,
+		ProbeNames: []string{"nodeset-deletion", "parallel-committer", "trie-emptied", "flushed-to-disk", "cold-restart", "path-disk-compared", "hash-disk-compared", "stacktrie-nodes-compared", "root-revisited"},
+	}
+}
+
+func check11() *simcore.Check {
+	return &simcore.Check{
+		ID: "C11", Engine: "triesim", Level: "exploration",
+		Rule: "plans = a flat state written with rawdb.WriteAccountSnapshot/WriteStorageSnapshot: 0-200 accounts whose hashes are placed into 0, 1, 2, a random subset or all 16 first-nibble partitions (single account alone, single partition with several accounts, hashes sharing long prefixes, hashes equal to a partition's first/last hash), 0-40 slots each, stale storage roots (random, empty-vs-non-empty), dangling storage of non-existent accounts before/between/after accounts and in empty partitions, correct or wrong expected root, both schemes, Batch.ValueSize inflated by 1-40000 (mid-account, mid-storage, dangling flushes and iterator reopen), optionally the n-th Batch.Write failing (disk full), the cancel channel closed at a planned scheduler step, 31 virtual seconds passing at a planned step. Real triedb.GenerateTrieWithProgress runs as a scheduler actor; each of its partition goroutines parks at every NewIterator, Iterator.Next, Batch.Write and the tape picks which partition proceeds. Non-trivial = a real scheduling choice at >=2 steps or an injected fault fired. Distinct = distinct (released-gate sequence, outcome log) fingerprints.",
+		Assumptions: []string{
+			"Batch.ValueSize inflation is legal for a backend (documented as approximate); memorydb iterators are snapshots taken at creation, like pebble's",
+			"only Batch.Write is failed: direct Put/Delete failures end in log.Crit by rawdb convention and are outside the property",
+			"the disk starts without trie nodes (generation on a store that already holds an unrelated trie is not exercised)",
+			"after an aborted run the second run is not gated (its outcome does not depend on the schedule in a correct implementation; its result is still checked in full)",
+		},
+		Components: simcore.Components{
+			Real: []string{"triedb.GenerateTrie/GenerateTrieWithProgress, generatePartition, assembleRoot, tickProgress", "trie.PartialStackTrie, trie.StackTrie, trie.MountPartitionRoot, trie.AssembleBranch", "triedb/internal HoldableIterator", "core/rawdb snapshot and trie-node accessors, KeyLengthIterator", "golang.org/x/sync/errgroup", "triedb/pathdb and hashdb readers (read-back)"},
+			Stub: []string{"disk: simdisk.SimKV under a gate wrapper (ethdb.Database)", "clock: synctest bubble (30 s progress ticker)", "caller: cancel channel"},
+		},
+		Perturbed: []string{"interleavings of partition goroutines between two database calls (they share only atomic counters)"},
+		Runs:      map[string]int{"quick": 6000, "thorough": 150000},
+		Gen:       Gen11, Decode: Decode11, Run: Run11, Shrink: Shrink11,
+		ProbeNames: []string{"empty-state", "single-account-fold", "single-partition-fold", "all-16-partitions", "partitions-interleaved", "mid-run-batch-flush",
+			"stale-root-rewritten", "dangling-storage-deleted", "root-mismatch-reported", "rerun-after-abort", "progress-ticker-period-elapsed"},
 	}
 }
